@@ -581,8 +581,16 @@ def c09_shards(tier, seed):
             for _ in range(reps):
                 fill = rnd.choice([20, 30, 40]) if plan not in ("GenCopy", "GenImmix") else rnd.choice([20, 25, 30])
                 n = cycles if plan != "PageProtect" else max(12, cycles // 4)  # one mmap/mprotect per object: slow
-                shards.append(gc_shard(variant, plan, rnd, n, mutators=1, heap=rnd.choice([16, 24, 32]), stress=0,
-                                       scenario="cycles", extra=["--fill-pct", fill]))
+                # every other shard also has allocation-triggered (stress) GCs inside the fill phase
+                stress = rnd.choice([0, 1 << 20]) if plan != "PageProtect" else 0
+                extra = ["--fill-pct", fill]
+                if (variant, plan) == ("D", "ConcurrentImmix"):
+                    extra += ["--disable", "nonmoving"]  # known finding, see the finding shard below
+                shards.append(gc_shard(variant, plan, rnd, n, mutators=1, heap=rnd.choice([16, 24, 32]), stress=stress,
+                                       scenario="cycles", extra=extra))
+    # known finding: NonMoving objects in a mark-sweep non-moving space are never reclaimed under ConcurrentImmix
+    shards.append(gc_shard("D", "ConcurrentImmix", rnd, 130, mutators=1, workers=2, heap=24, stress=0, scenario="cycles",
+                           extra=["--fill-pct", 40], finding="config:marksweep_as_nonmoving+concurrentimmix:nonmoving-space-never-reclaimed"))
     return shards
 
 
@@ -590,7 +598,7 @@ gcsim("C09", "Garbage is fully reclaimable (no space leak across GC cycles)",
       rule="single-mutator gcsim programs of the shape the property describes, for every collecting plan in variants A-D (D = marksweep_as_nonmoving): 45 cycles (thorough 700) of {allocate 20-40 % of a 16-32 MiB heap as linked structures "
            "kept reachable from roots, with a different size mix per cycle (tiny objects, medium, the boundary-heavy general mix, half the bytes in large objects, line/block-sized, alternating tiny/large, one size class per cycle; "
            "Default, LOS and NonMoving semantics; PageProtect and LOS counted in pages), drop every root, force an exhaustive GC, read memory_manager::used_bytes}; E: an allocation fails or Collection::out_of_memory is called; "
-           "used_bytes after the GC > heap/4 (the stated constant floor); max used_bytes after GC over the second half of the run > max over the first half + 1 MiB (growth); every pause is also checked by the C01/C02 oracles; "
+           "used_bytes after the GC > heap/16 (heap/4 for ConcurrentImmix; the stated constant floor; the value observed on this tree is 0); half of the shards additionally run allocation-triggered (stress) GCs inside the fill phase; max used_bytes after GC over the second half of the run > max over the first half + 1 MiB (growth); every pause is also checked by the C01/C02 oracles; "
            "case = one cycle; distinct = (size-mix profile, used-after-GC class)",
       technique="conservation/boundedness monitor on used_bytes and the OOM callback over allocate-drop-collect cycles of live runs",
       level_text="A bounded restatement of 'any number of cycles': leaks that show within the cycles run. Each cycle's post-GC used_bytes is compared with a constant floor and with the earlier cycles.",
